@@ -736,6 +736,52 @@ def r11_flag_collision_guard(idx, r):
     r.require(guards_value, "guard:value-collision-tested", f, msg="registering a field must test its value against the values already taken")
 
 
+POSITION_TABLES = {"nones", "offsets", "shapes", "shapeIndices", "indexInData"}
+
+
+def r12_position_tables(idx, r):
+    """JaggedArray's side tables hold POSITIONS (of the unset entries, of the offsets ...).  Position 0 is as good as any other, so such a
+    table is never evaluated for truth or asked `.any()` / `.all()`: `[0].any()` is False and the unset entry of the first object is lost.
+    The number of unpacked entries counts every unset position."""
+    m = idx.modules.get(JAG)
+    if m is None:
+        raise AnchorMissing(JAG)
+    n = 0
+    for f in m.all_funcs():
+        env = single_assign_env(f.node)
+        for c in iter_calls(f.node):
+            if call_attr(c) in ("any", "all") and isinstance(c.func, ast.Attribute) and not c.args:
+                base = propagate(c.func.value, env)
+                hit = [x.attr for x in ast.walk(base) if isinstance(x, ast.Attribute) and x.attr in POSITION_TABLES] + [x.id for x in ast.walk(base) if isinstance(x, ast.Name) and x.id in POSITION_TABLES]
+                cmpd = any(isinstance(x, ast.Compare) for x in ast.walk(base))
+                if hit and not cmpd:
+                    n += 1
+                    r.violate(f"{f.qualname}:{hit[0]}:{call_attr(c)}", f, f"`{norm(c)}` asks a table of positions for truth: a table holding only position 0 answers False, so an unset/empty entry "
+                              "of the first object is dropped and every later value moves up one slot", node=c)
+        r.ok(f"{f.qualname}:scanned", f)
+    u = idx.method(JAG + ".JaggedArray", "unpack")
+    tot = [s_ for s_ in iter_stores(u.node) if s_.attr == "numElements" and s_.value is not None]
+    loop = next((x for x in walk_local(u.node) if isinstance(x, ast.For) and "numElements" in norm(x.iter)), None)
+    if len(tot) != 1 or loop is None:
+        raise AnchorMissing("JaggedArray.unpack: numElements and the loop over it")
+    v = propagate(tot[0].value, single_assign_env(u.node))
+    lens = [x for x in ast.walk(v) if isinstance(x, ast.Call) and dotted(x.func) == "len" and len(x.args) == 1]
+    r.require(isinstance(v, ast.BinOp) and isinstance(v.op, ast.Add) and len(lens) == 2 and any("self.nones" in norm(x.args[0]) for x in lens) and not any(isinstance(x, (ast.IfExp, ast.BoolOp)) for x in ast.walk(v)),
+              "unpack:count-includes-every-unset-position", u, node=tot[0].stmt,
+              msg=f"the number of unpacked entries is `{norm(v)[:90]}`; it must be the number of stored arrays plus the number of unset positions, unconditionally")
+    tests = [x for x in walk_local(loop) if isinstance(x, ast.If)]
+    t0 = propagate(tests[0].test, single_assign_env(u.node)) if tests else None
+    okt = isinstance(t0, ast.Compare) and len(t0.ops) == 1 and isinstance(t0.ops[0], ast.In) and norm(t0.left) == norm(loop.target) and "self.nones" in norm(t0.comparators[0]) \
+        and not any(isinstance(x, (ast.IfExp, ast.BoolOp)) for x in ast.walk(t0.comparators[0]))
+    r.require(okt, "unpack:unset-test-on-the-stored-table", u, node=tests[0] if tests else loop,
+              msg="whether entry i is unset is decided by membership in the stored table of unset positions")
+
+
+def r13_history_layout(idx, r):
+    from .c06 import r10_history_siblings
+    r10_history_siblings(idx, r)
+
+
 def run(idx, chk):
     chk.explanation = (
         "C05: pack/unpack are sibling implementations; their attrs key sets, strategy decision trees, None-sentinel tables, "
@@ -765,3 +811,7 @@ def run(idx, chk):
                  necessary="flag sets keep their meaning (all bits); strings are returned as the same values by every read path")
     chk.run_rule("R05.11", "a new flag's value is tested against the values already taken (not against the names)", lambda r: r11_flag_collision_guard(idx, r), floor=1,
                  necessary="'flag sets keep their meaning': two flags on one bit cannot be told apart")
+    chk.run_rule("R05.12", "tables of positions (nones/offsets/shapes) are never asked for truth; unpack counts every unset position", lambda r: r12_position_tables(idx, r), floor=3,
+                 necessary="any pattern of unset entries is returned at the same positions")
+    chk.run_rule("R05.13", "history reads decode each step with that step's own layout and restore None for stored unset markers (shared with R06.10)", lambda r: r13_history_layout(idx, r), floor=7,
+                 necessary="values are returned for the object they were written for, with the same unset positions")
